@@ -1,2 +1,10 @@
 import BacVerif.Props.C14
-#print axioms BacVerif.C14.never_early_step
+#print axioms BacVerif.C14.fire_order
+#print axioms BacVerif.C14.never_early
+#print axioms BacVerif.C14.once_per_install
+#print axioms BacVerif.C14.install_fate
+#print axioms BacVerif.C14.removed_never_fires
+#print axioms BacVerif.C14.reinstall_moves
+#print axioms BacVerif.C14.one_entry_iff_flagged
+#print axioms BacVerif.C14.deferred_fifo
+#print axioms BacVerif.C14.drain_queue_empty
